@@ -38,6 +38,9 @@ func leaves(seed int64) ([]leaf, []byte) {
 		{`255`, vInt(255)},
 		{`256`, vInt(256)},
 		{`18446744073709551616`, vBig(two64)},
+		// exactly 64 bits with the most significant bit set (machine word boundary)
+		{`9223372036854775808`, vBig(new(big.Int).Rsh(two64, 1))},
+		{`[255,255,255,255,255,255,255,255]`, vArr(vInt(255), vInt(255), vInt(255), vInt(255), vInt(255), vInt(255), vInt(255), vInt(255))},
 		{`-1`, vInt(-1)},
 		{`1.5`, vFloat(1.5)},
 		{`[]`, vArr()},
